@@ -26,6 +26,11 @@ import KrakenModel.Model.ConnState
    op connclosed c<k>              => ok        connClosedEvent{c}.apply(state)
    op failout p<i> h<j>            => ok        failedOutgoingHandshakeEvent.apply(state)
    op failin p<i> h<j>             => ok        failedIncomingHandshakeEvent.apply(state)
+   op incoming p<i> h<j> <nbrs>    => ok|rejected  incomingHandshakeEvent{pc}.apply(state), pc from a real
+                                                 handshake whose remote bitfields name <nbrs>
+   op outgoing c<k> / inconn c<k>  => ok|failed   outgoingConnEvent / incomingConnEvent .apply(state)
+                                                 (ok = the conn became active)
+   op complete h<j>                => ok         the torrent is completed, dispatcherCompleteEvent.apply(state)
    op padd … / pdelp …                           like add / delp, made by the harness itself (probes)
 -/
 open Driver KrakenModel.ConnState
@@ -60,6 +65,8 @@ structure Mon where
   now : Int := 0
   occ : List (Nat × Nat × Option Nat) := []    -- (hash, peer, none = pending | some conn)
   bl : List (Nat × Nat × Int) := []            -- (hash, peer, expiration) of successful Blacklist calls
+  blDial : List (Nat × Nat × Int) := []        -- the same, but kept across the torrent's completion (a
+                                               -- completed torrent must not dial although its blacklist is cleared)
   guarded : List (Nat × Nat × Nat) := []       -- (hash, peer, conn): conn survived a DeleteActive of another conn
 
 structure St where
@@ -81,6 +88,13 @@ def Mon.mutual (g : Mon) (h : Nat) (nbrs : List Nat) : Nat :=
 
 def Mon.blLive (g : Mon) (h p : Nat) : Bool :=
   g.bl.any fun e => e.1 == h && e.2.1 == p && g.now < e.2.2
+
+def Mon.blDialLive (g : Mon) (h p : Nat) : Bool :=
+  g.blDial.any fun e => e.1 == h && e.2.1 == p && g.now < e.2.2
+
+def Mon.setBl (g : Mon) (h p : Nat) (exp : Int) : Mon :=
+  { g with bl := (h, p, exp) :: g.bl.filter (fun e => !(e.1 == h && e.2.1 == p)),
+           blDial := (h, p, exp) :: g.blDial.filter (fun e => !(e.1 == h && e.2.1 == p)) }
 
 def addTok : AddRes → String
   | .ok => "ok" | .atCapacity => "cap" | .alreadyPending => "pend" | .alreadyActive => "act" | .tooManyMutual => "mutual"
@@ -106,8 +120,8 @@ def monAdd (s : St) (p h : Nat) (nbrs : List Nat) (impl : List String) : Mon × 
         | some none => [s!"side=impl key=double-entry AddPending p{p} h{h} admitted while the peer is pending"]
         | some (some c) => [s!"side=impl key=double-entry AddPending p{p} h{h} admitted while the peer is active (conn c{c})"]
         | none => []) ++
-      (if (g.mutual h nbrs : Int) > s.cfg.maxMutual then
-        [s!"side=impl key=mutual-not-refused AddPending p{p} h{h} admitted with {g.mutual h nbrs} connected neighbours, max mutual {s.cfg.maxMutual}"] else [])
+      (if (g.mutual h nbrs.eraseDups : Int) > s.cfg.maxMutual then
+        [s!"side=impl key=mutual-not-refused AddPending p{p} h{h} admitted with {g.mutual h nbrs.eraseDups} distinct connected neighbours, max mutual {s.cfg.maxMutual}"] else [])
     ({ (g.remove h p) with occ := (g.remove h p).occ ++ [(h, p, none)] }, pf)
   else (g, [])
 
@@ -136,8 +150,7 @@ def monDeletePending (g : Mon) (p h : Nat) : Mon :=
 
 def monBlacklist (s : St) (p h : Nat) (impl : List String) : Mon :=
   let g := s.mon
-  if impl = ["ok"] ∧ !s.cfg.disableBlacklist then
-    { g with bl := (h, p, g.now + s.cfg.blacklistDuration) :: g.bl.filter fun e => !(e.1 == h && e.2.1 == p) }
+  if impl = ["ok"] ∧ !s.cfg.disableBlacklist then g.setBl h p (g.now + s.cfg.blacklistDuration)
   else g
 
 def monIsBl (s : St) (p h : Nat) (impl : List String) : List String :=
@@ -193,7 +206,8 @@ def step (s : St) (kind : String) (args impl : List String) : Option (St × Step
     pure (s, { obs := [boolTok b], branch := s!"isbl.{boolTok b}", propfails := monIsBl s p h impl })
   | ["clearbl", ht] => do
     let h ← hash? ht
-    pure ({ s with m := clearBlacklist s.m h, mon := { s.mon with bl := s.mon.bl.filter (·.1 != h) } },
+    pure ({ s with m := clearBlacklist s.m h,
+                   mon := { s.mon with bl := s.mon.bl.filter (·.1 != h), blDial := s.mon.blDial.filter (·.1 != h) } },
           { obs := ["ok"], branch := "clearbl" })
   | ["sat", ht] => do
     let h ← hash? ht
@@ -231,7 +245,7 @@ def peerOrSelf? (t : String) : Option Nat := if t = "self" then some selfPeer el
 /-- ghost effect of a `Blacklist` call made inside an event handler (its error is only logged) -/
 def ghostBlacklist (s : St) (p h : Nat) : Mon :=
   if s.cfg.disableBlacklist ∨ s.mon.blLive h p then s.mon
-  else { s.mon with bl := (h, p, s.mon.now + s.cfg.blacklistDuration) :: s.mon.bl.filter fun e => !(e.1 == h && e.2.1 == p) }
+  else s.mon.setBl h p (s.mon.now + s.cfg.blacklistDuration)
 
 def estep (es : ESt) (kind : String) (args impl : List String) : Option (ESt × StepOut) :=
   if kind ≠ "op" then none else
@@ -242,7 +256,8 @@ def estep (es : ESt) (kind : String) (args impl : List String) : Option (ESt × 
     let peers ← (list? lt).mapM peerOrSelf?
     let (m', dl) := announceResult s.cfg s.m selfPeer h peers
     let full := (count s.m h : Int) = s.cfg.max
-    let br := if dl.isEmpty then (if full then "announce.full" else "announce.none")
+    let br := if s.m.completed.contains h then "announce.complete" else
+      if dl.isEmpty then (if full then "announce.full" else "announce.none")
       else if dl.length < (peers.filter (fun p => p ≠ selfPeer ∧ !blacklisted s.m p h ∧ (lookup s.m h p).isNone)).eraseDups.length
       then "announce.cut-at-capacity" else "announce.all"
     pure ({ es with base := { s with m := m' }, lastDial := (h, dl, peers) :: es.lastDial.filter (·.1 != h) },
@@ -254,8 +269,8 @@ def estep (es : ESt) (kind : String) (args impl : List String) : Option (ESt × 
     let g := s.mon
     let pf : List String :=
       (implDl.flatMap fun q =>
-        (if !s.cfg.disableBlacklist ∧ g.blLive h q then
-          [s!"side=impl key=dialled-blacklisted announce result for h{h} dialled p{q} at t={g.now} while it is blacklisted"] else []) ++
+        (if !s.cfg.disableBlacklist ∧ g.blDialLive h q then
+          [s!"side=impl key=dialled-blacklisted announce result for h{h} dialled p{q} at t={g.now}, less than {s.cfg.blacklistDuration}ns after it was blacklisted"] else []) ++
         (if q ∉ peers then
           [s!"side=impl key=dialled-unannounced p{q} became pending for h{h} although the announce result did not list it"] else [])) ++
       (if s.cfg.max ≥ 0 ∧ ((g.count h + (implDl.filter fun q => (g.status h q).isNone).length : Nat) : Int) > s.cfg.max then
@@ -277,6 +292,35 @@ def estep (es : ESt) (kind : String) (args impl : List String) : Option (ESt × 
     let mon1 := monDeletePending s.mon p h
     let mon := ghostBlacklist { s with mon := mon1 } p h
     pure ({ es with base := { s with m := failedOutgoing s.cfg s.m p h, mon } }, { obs := ["ok"], branch := "failout" })
+  | ["incoming", pt, ht, nt] => do
+    -- incomingHandshakeEvent: AddPending with the neighbours taken from the handshake's remote bitfields
+    let p ← peer? pt; let h ← hash? ht; let nbrs ← peers? nt
+    let (m', r) := addPending s.cfg s.m p h nbrs
+    let tok := if r = .ok then "ok" else "rejected"
+    let (mon, pf) := monAdd s p h nbrs (if impl = ["ok"] then ["ok"] else ["rejected"])
+    pure ({ es with base := { s with m := m', mon } }, { obs := [tok], branch := s!"incoming.{addTok r}", propfails := pf })
+  | [ev, ct] => do
+    if ev = "outgoing" ∨ ev = "inconn" then
+      -- outgoingConnEvent / incomingConnEvent: addOutgoingConn / addIncomingConn = MovePendingToActive first
+      let k ← conn? ct
+      let c ← findConn s k
+      let (m', r) := movePendingToActive s.m c
+      let tok := if r = .ok then "ok" else "failed"
+      let (mon, pf) := monMove s c (if impl = ["ok"] then ["ok"] else ["failed"])
+      pure ({ es with base := { s with m := m', mon } },
+            { obs := [tok], branch := s!"{ev}.{match r with | .ok => "ok" | .closed => "closed" | .invalidTransition => "invalid"}", propfails := pf })
+    else if ev = "complete" then
+      -- dispatcherCompleteEvent: clears the torrent's blacklist; the torrent is complete from now on
+      let h ← hash? ct
+      pure ({ es with base := { s with m := dispatcherComplete s.m h, mon := { s.mon with bl := s.mon.bl.filter (·.1 != h) } } },
+            { obs := ["ok"], branch := "complete" })
+    else do
+      let args' := match args with
+        | "padd" :: rest => "add" :: rest
+        | "pdelp" :: rest => "delp" :: rest
+        | _ => args
+      let (s', out) ← step s kind args' impl
+      pure ({ es with base := s' }, out)
   | ["failin", pt, ht] => do
     let p ← peer? pt; let h ← hash? ht
     pure ({ es with base := { s with m := deletePending s.m p h, mon := monDeletePending s.mon p h } },
